@@ -536,7 +536,7 @@ def strategy(tier, kinds=None):
 
         kind = pick(kinds or (['efc'] * 6 + ['ifc'] * 5 + ['jex'] * 3 + ['jim'] * 2))
         implicit = kind in ('ifc', 'jim')
-        method = pick(['cs', 'cs', 'cs', 'fd', 'jax', 'jax']) if kind in ('efc', 'ifc') else 'jax'
+        method = pick(['cs', 'cs', 'cs', 'fd', 'jax']) if kind in ('efc', 'ifc') else 'jax'
         names = list(draw(st.permutations(NAMES)))
         n = pick([2, 3, 4])
         m = pick([2, 3])
@@ -573,7 +573,7 @@ def strategy(tier, kinds=None):
         if kind in ('jex', 'jim'):
             unary = unary + ('erf', 'erfc')
         c = {'kind': kind, 'method': method, 'mode': pick(['fwd', 'rev']), 'coloring': draw(st.booleans()),
-             'use_jit': draw(st.booleans()) if method == 'jax' else True, 'npseed': draw(st.integers(0, 999))}
+             'use_jit': pick([True, False, False]) if method == 'jax' else True, 'npseed': draw(st.integers(0, 999))}
         static = None
         if kind in ('jex', 'jim') and draw(st.booleans()):
             static = [pick([1.0, 0.5, 2.0]), pick([2.5, -1.5, 3.0])]
@@ -650,7 +650,7 @@ def strategy(tier, kinds=None):
 
 def units(tier, seed):
     n = 8 if tier == 'quick' else 32
-    per = 70 if tier == 'quick' else 600
+    per = 48 if tier == 'quick' else 600
     return [{'kind': 'random', 'n': per, 'seed': core.shard_seed(seed, ID, i)} for i in range(n)]
 
 
